@@ -32,7 +32,9 @@ Repeats == { [shape |-> "binop-chain",   pre |-> <<"a", "{", "b", ":", "1">>, un
              [shape |-> "interp-string", pre |-> <<"a", "{", "b", ":", "\"">>, unit |-> <<"#{", "1", "}">>, post |-> <<"\"", "}">>],
              [shape |-> "concat",        pre |-> <<"a", "{", "b", ":", "x">>, unit |-> <<"+", "x">>,        post |-> <<"}">>],
              [shape |-> "media-list",    pre |-> <<"@media", " ", "a">>,      unit |-> <<",", "a">>,        post |-> <<"{", "b", "{", "c", ":", "d", "}", "}">>],
-             [shape |-> "for-range",     pre |-> <<"@for", " ", "$i", " ", "from", " ">>, unit |-> <<"9">>, post |-> <<" ", "through", " ", "9223372036854775807", "{", "a", "{", "b", ":", "$i", "}", "}">>],
+             (* bounds at the edge of i64: the loop itself stays short (an @for over 9e18 values is legitimately unbounded work, *)
+             (* like `@while true`, and is not generated); the repeated unit only lengthens the lower bound with leading zeros   *)
+             [shape |-> "for-range",     pre |-> <<"@for", " ", "$i", " ", "from", " ">>, unit |-> <<"0">>, post |-> <<"9223372036854775800", " ", "through", " ", "9223372036854775807", "{", "a", "{", "b", ":", "$i", "}", "}">>],
              [shape |-> "else-chain",    pre |-> <<"@if", " ", "false", "{", "}">>, unit |-> <<"@else", " ", "if", " ", "false", "{", "}">>, post |-> <<"@else", "{", "a", "{", "b", ":", "c", "}", "}">>] }
 RepeatCounts == {7, 8, 19, 64, 128, 1000, 8000}
 
